@@ -106,8 +106,15 @@ async fn establish(transport: TransportConfig) -> Option<Pair> {
     let mut client = Endpoint::client("127.0.0.1:0").await.ok()?;
     client.default_client_config = Some(cc);
     let addr = server.local_addr().ok()?;
-    let connecting = client.connect(addr, "localhost", None).ok()?;
-    let (c, s) = futures_util::join!(connecting, async { server.wait_incoming().await?.await.ok() });
+    let mut connecting = client.connect(addr, "localhost", None).ok()?;
+    let (c, s) = futures_util::join!(
+        async {
+            // wait for the handshake data first (on_handshake_data), then for the connection
+            let _ = connecting.handshake_data().await;
+            connecting.await
+        },
+        async { server.wait_incoming().await?.await.ok() }
+    );
     Some(Pair { server, client, sconn: s?, cconn: c.ok()? })
 }
 
@@ -593,12 +600,147 @@ fn run_0rtt_waiters(c: &mut Case) -> Result<Vec<u64>, BadCase> {
     Ok(res)
 }
 
+// ---------------------------------------------------------------------------
+// kind 4: `4 len stop_after`: the reader stops a uni stream after `stop_after` bytes
+// result: `0 verdict write(0 ok, 1 Stopped(7), 2 other) stopped(0 Some(7), 1 None, 2 error) log`
+
+fn run_stop(c: &mut Case) -> Result<Vec<u64>, BadCase> {
+    let len = c.take()? as usize;
+    let stop_after = c.take()? as usize;
+    if len > 1 << 18 || len == 0 || stop_after >= len {
+        // the reader must be able to get `stop_after` bytes, and an empty stream is never announced
+        return Err(BadCase);
+    }
+    let mut t = TransportConfig::default();
+    t.stream_receive_window(VarInt::from_u32(1000));
+    let out = Rc::new(Cell::new((9u64, 9u64)));
+    let rt = compio_runtime::Runtime::new().unwrap();
+    verif::start();
+    let o = out.clone();
+    let verdict = rt.block_on(async move {
+        timeout(Duration::from_secs(10), async move {
+            let Some(Pair { server, client, sconn, cconn }) = establish(t).await else { return 1u64 };
+            let srv = async {
+                let Ok(mut r) = sconn.accept_uni().await else { return };
+                let mut got = 0;
+                while got < stop_after {
+                    match read_chunk(&mut r, 500).await {
+                        Ok(b) if !b.is_empty() => got += b.len(),
+                        _ => break,
+                    }
+                }
+                let _ = r.stop(VarInt::from_u32(7));
+            };
+            let cli = async {
+                let mut s = cconn.open_uni().unwrap();
+                let BufResult(r, _) = s.write_all(vec![5u8; len]).await;
+                let w = match r {
+                    Ok(()) => 0,
+                    Err(e) => match e.get_ref().and_then(|i| i.downcast_ref::<compio_quic::WriteError>()) {
+                        Some(compio_quic::WriteError::Stopped(code)) if code.into_inner() == 7 => 1,
+                        _ => 2,
+                    },
+                };
+                let st = match s.stopped().await {
+                    Ok(Some(code)) if code.into_inner() == 7 => 0,
+                    Ok(_) => 1,
+                    Err(_) => 2,
+                };
+                o.set((w, st));
+            };
+            futures_util::join!(srv, cli);
+            cconn.close(VarInt::from_u32(0), b"");
+            drop(sconn);
+            drop(cconn);
+            let _ = futures_util::join!(client.shutdown(), server.shutdown());
+            0
+        })
+        .await
+        .unwrap_or(3)
+    });
+    drop(rt);
+    let log = verif::take();
+    let mut res = vec![0, verdict, out.get().0, out.get().1];
+    push_log(&mut res, &log);
+    Ok(res)
+}
+
+// ---------------------------------------------------------------------------
+// kind 5: `5 n dlen sendbuf`: n datagrams through send_datagram_wait with a small send buffer
+// result: `0 verdict sent received received_ok log`
+
+fn run_dgram(c: &mut Case) -> Result<Vec<u64>, BadCase> {
+    let n = c.take()? as usize;
+    let dlen = c.take()? as usize;
+    let sendbuf = c.take()? as usize;
+    if n > 200 || dlen > 1100 || sendbuf == 0 {
+        return Err(BadCase);
+    }
+    let mut t = TransportConfig::default();
+    t.datagram_send_buffer_size(sendbuf);
+    let out = Rc::new(Cell::new((0u64, 0u64, 0u64)));
+    let rt = compio_runtime::Runtime::new().unwrap();
+    verif::start();
+    let o = out.clone();
+    let verdict = rt.block_on(async move {
+        timeout(Duration::from_secs(10), async move {
+            let Some(Pair { server, client, sconn, cconn }) = establish(t).await else { return 1u64 };
+            let got = Rc::new(RefCell::new(Vec::<Vec<u8>>::new()));
+            {
+                let (sconn, got) = (sconn.clone(), got.clone());
+                compio_runtime::spawn(async move {
+                    while let Ok(d) = sconn.recv_datagram().await {
+                        got.borrow_mut().push(d.to_vec());
+                    }
+                })
+                .detach();
+            }
+            let mk = |j: usize| {
+                let mut d = vec![j as u8];
+                d.extend((0..dlen).map(|i| (i * 5 + j) as u8));
+                d
+            };
+            let mut sent = 0;
+            for j in 0..n {
+                if cconn.send_datagram_wait(Bytes::from(mk(j))).await.is_err() {
+                    break;
+                }
+                sent += 1;
+            }
+            for _ in 0..40 {
+                if got.borrow().len() >= sent {
+                    break;
+                }
+                sleep(Duration::from_millis(5)).await;
+            }
+            let g = got.borrow();
+            let ok = g.iter().filter(|d| !d.is_empty() && (d[0] as usize) < n && **d == mk(d[0] as usize)).count();
+            o.set((sent as u64, g.len() as u64, ok as u64));
+            cconn.close(VarInt::from_u32(0), b"");
+            drop(sconn);
+            drop(cconn);
+            let _ = futures_util::join!(client.shutdown(), server.shutdown());
+            0
+        })
+        .await
+        .unwrap_or(3)
+    });
+    drop(rt);
+    let log = verif::take();
+    let (a, b, cc) = out.get();
+    let mut res = vec![0, verdict, a, b, cc];
+    push_log(&mut res, &log);
+    Ok(res)
+}
+
 fn run(case: &[u64]) -> Result<Vec<u64>, BadCase> {
     let mut c = Case::new(case);
     match c.take()? {
         1 => run_data(&mut c),
         2 => run_close(&mut c),
         3 => run_0rtt_waiters(&mut c),
+        4 => run_stop(&mut c),
+        5 => run_dgram(&mut c),
         _ => Err(BadCase),
     }
 }
